@@ -143,6 +143,7 @@ EpochManager::CollectProtectedEpochs(  //
   for (size_t i = 0; i < kMaxThreadNum; ++i) {
     auto &tls = tls_fields_[i];
     if (tls.heartbeat.expired()) continue;
+    DBGROUP_VERIF_POINT(kEpochScanSlot, &tls);
 
     const auto protected_epoch = tls.epoch.GetProtectedEpoch();
     if (protected_epoch < std::numeric_limits<size_t>::max()) {
